@@ -95,7 +95,24 @@ def check_fold(ctx):
     if not ctx.require(len(cloops) == 1, "C14-a", init, "Compose.__init__: expected one context loop"):
         return
     cl = cloops[0]
-    corder = K.iter_order(cl.iter, "self._vars", allow_slice="self._vars[1:]")
+    # `self._vars = args` with args never rebound: the constructor may read the variables through either name
+    vars_alias = {}
+    for a in A.walk_local(init):
+        if isinstance(a, ast.Assign) and len(a.targets) == 1 and A.is_self_attr(a.targets[0], "_vars") and isinstance(a.value, ast.Name):
+            nm_ = a.value.id
+            rebound = [x for x in A.walk_local(init) if isinstance(x, (ast.Assign, ast.AugAssign, ast.For))
+                       and any(nm_ in A.target_names(t) for t in A.assigned_targets(x))]
+            if not rebound and a.lineno < cl.lineno:
+                vars_alias[nm_] = a.targets[0]
+        elif isinstance(a, ast.Expr) and isinstance(a.value, ast.Call) and A.src(a.value.func) == "object.__setattr__" \
+                and len(a.value.args) == 3 and A.src(a.value.args[0]) == "self" and A.const(a.value.args[1]) == "_vars" \
+                and isinstance(a.value.args[2], ast.Name):
+            nm_ = a.value.args[2].id
+            rebound = [x for x in A.walk_local(init) if isinstance(x, (ast.Assign, ast.AugAssign, ast.For))
+                       and any(nm_ in A.target_names(t) for t in A.assigned_targets(x))]
+            if not rebound and a.lineno < cl.lineno:
+                vars_alias[nm_] = ast.parse("self._vars").body[0].value
+    corder = K.iter_order(K.expand(cl.iter, vars_alias), "self._vars", allow_slice="self._vars[1:]")
     if corder == "unknown":
         ctx.unknown("C14-a", cl, "Compose context loop iterates `%s`, which the analyser cannot relate to self._vars" % A.src(cl.iter))
         return
@@ -112,7 +129,9 @@ def check_fold(ctx):
         if len(inits) == 1 and isinstance(inits[0].value, ast.Dict) and len(inits[0].value.keys) == 1 \
                 and A.const(inits[0].value.keys[0]) == "variable":
             v = inits[0].value.values[0]
-            ok = res.is_call_to(v, "copy.deepcopy") and A.src(v.args[0]) == "self._vars[0].var_context"
+            al = dict(K.func_aliases(init))
+            al.update(vars_alias)
+            ok = res.is_call_to(v, "copy.deepcopy") and A.src(K.expand(v.args[0], al)) == "self._vars[0].var_context"
         ctx.check("C14-a", ok, init, "Compose context fold does not start from {'variable': deepcopy(self._vars[0].var_context)}",
                   detail="fold starts from a copy of the first variable's context", construct="context-init")
         final = [n for n in init.body if isinstance(n, ast.Assign) and A.src(n.value) == "%s['variable']" % acc]
@@ -360,6 +379,12 @@ def check_locality(ctx):
             creb = [a for a in A.walk_local(call) if isinstance(a, (ast.Assign, ast.AugAssign))
                     and any(cn in A.target_names(t) for t in A.assigned_targets(a)) and a is not unpack[0]]
             ok = c.id == cn and d.id == dn and len(reb) == 1 and A.src(reb[0].value) == "self.getter(%s)" % dn and not creb
+            if not ok and c.id == cn and not creb and not reb:
+                # the transformed data under a name of its own: `new = self.getter(data) ... return (new, context)`
+                defs = [a for a in A.walk_local(call) if isinstance(a, (ast.Assign, ast.AugAssign, ast.For))
+                        and any(d.id in A.target_names(t) for t in A.assigned_targets(a))]
+                ok = len(defs) == 1 and isinstance(defs[0], ast.Assign) and A.src(defs[0].value) == "self.getter(%s)" % dn \
+                    and A.enclosing(defs[0], (ast.If, ast.For, ast.While, ast.Try)) is None
     ctx.check("C14-c", ok, call, "Variable.__call__ does not return (self.getter(data), context) with the unpacked context",
               detail="__call__ returns (getter(data), the value's own context)", construct="call-return")
 
